@@ -794,3 +794,219 @@ func factString(f map[types.Object]bool) string {
 	sort.Strings(ks)
 	return strings.Join(ks, ",")
 }
+
+// TrieSlotCount implements R-SLOTCOUNT: the occupied-slot counter of the array node follows the slots.
+//
+// mapHashArrayNode.count decides when the node shrinks back to a bitmap node and when it disappears. It must change
+// exactly when a slot changes between nil and non-nil: every ++/-- of the counter is guarded by a nil test of the slot's
+// old value (++: a value read from the children array) or new value (--: the value stored into it), or happens while a
+// freshly declared node is being filled slot by slot (an assignment into its children array in the same block).
+func TrieSlotCount(c *core.Ctx, rule string, p *packages.Package) {
+	c.Rule(rule, "every increment/decrement of the slot counter of a branch node with a fixed-size child array is guarded by a nil test of the slot value concerned (the value read from, or stored into, the child array), or accompanies an assignment into the child array of a node that is being built in the same block: a counter that follows anything else (e.g. the key-added flag) drifts, and the node no longer shrinks or vanishes when its slots empty")
+	m := buildTrieModel(c, p)
+	info := p.TypesInfo
+	// counter fields: unsigned/int fields of branch types that have an array child field
+	type cf struct{ counter, children string }
+	fields := map[*types.TypeName]cf{}
+	for tn, ch := range m.branch {
+		arr := ""
+		for name, ln := range ch {
+			if ln > 0 {
+				arr = name
+			}
+		}
+		if arr == "" {
+			continue
+		}
+		st := tn.Type().Underlying().(*types.Struct)
+		for i := 0; i < st.NumFields(); i++ {
+			if b, ok := st.Field(i).Type().Underlying().(*types.Basic); ok && b.Info()&types.IsInteger != 0 {
+				fields[tn] = cf{st.Field(i).Name(), arr}
+			}
+		}
+	}
+	n := 0
+	for _, fb := range funcBodies(c, []*packages.Package{p}) {
+		if fb.Lit != nil {
+			continue
+		}
+		// parents
+		parent := map[ast.Node]ast.Node{}
+		var stack []ast.Node
+		ast.Inspect(fb.Body, func(x ast.Node) bool {
+			if x == nil {
+				stack = stack[:len(stack)-1]
+				return false
+			}
+			if len(stack) > 0 {
+				parent[x] = stack[len(stack)-1]
+			}
+			stack = append(stack, x)
+			return true
+		})
+		// slot values: variables assigned from X.children[...] and expressions assigned into X.children[...]
+		slotVals := map[types.Object]bool{}
+		ast.Inspect(fb.Body, func(x ast.Node) bool {
+			as, ok := x.(*ast.AssignStmt)
+			if !ok || len(as.Lhs) != len(as.Rhs) {
+				return true
+			}
+			for i := range as.Lhs {
+				if ix, ok := ast.Unparen(as.Rhs[i]).(*ast.IndexExpr); ok && m.isChildrenField(info, ix.X) {
+					if o := objOf(info, as.Lhs[i]); o != nil {
+						slotVals[o] = true
+					}
+				}
+				if ix, ok := ast.Unparen(as.Lhs[i]).(*ast.IndexExpr); ok && m.isChildrenField(info, ix.X) {
+					if o := objOf(info, as.Rhs[i]); o != nil {
+						slotVals[o] = true
+					}
+				}
+			}
+			return true
+		})
+		// booleans holding the verdict of a nil test of a slot value
+		nilVerdict := map[types.Object]bool{}
+		ast.Inspect(fb.Body, func(x ast.Node) bool {
+			as, ok := x.(*ast.AssignStmt)
+			if !ok || len(as.Lhs) != len(as.Rhs) {
+				return true
+			}
+			for i, r := range as.Rhs {
+				be, ok := ast.Unparen(r).(*ast.BinaryExpr)
+				if !ok || (be.Op != token.EQL && be.Op != token.NEQ) {
+					continue
+				}
+				a, b := ast.Unparen(be.X), ast.Unparen(be.Y)
+				if isNilIdent(info, a) {
+					a, b = b, a
+				}
+				if !isNilIdent(info, b) {
+					continue
+				}
+				isSlot := false
+				if o := objOf(info, a); o != nil && slotVals[o] {
+					isSlot = true
+				}
+				if ix, ok := a.(*ast.IndexExpr); ok && m.isChildrenField(info, ix.X) {
+					isSlot = true
+				}
+				if isSlot {
+					if o := objOf(info, as.Lhs[i]); o != nil {
+						nilVerdict[o] = true
+					}
+				}
+			}
+			return true
+		})
+		k := 0
+		ast.Inspect(fb.Body, func(x ast.Node) bool {
+			inc, ok := x.(*ast.IncDecStmt)
+			if !ok {
+				return true
+			}
+			sel, ok := ast.Unparen(inc.X).(*ast.SelectorExpr)
+			if !ok {
+				return true
+			}
+			tv, ok := info.Types[sel.X]
+			if !ok {
+				return true
+			}
+			tn := namedOf(tv.Type)
+			if tn == nil {
+				return true
+			}
+			f, ok := fields[tn.Obj()]
+			if !ok || f.counter != sel.Sel.Name {
+				return true
+			}
+			k++
+			n++
+			key := fb.Name + "/" + exprString(inc.X) + inc.Tok.String() + "#" + itoa(k)
+			// (a) guarded by a nil test of a slot value
+			guarded := false
+			for q := parent[inc]; q != nil; q = parent[q] {
+				is, ok := q.(*ast.IfStmt)
+				if !ok {
+					continue
+				}
+				if nodeContains(is.Cond, true, func(y ast.Node) bool {
+					be, ok := y.(*ast.BinaryExpr)
+					if !ok || (be.Op != token.EQL && be.Op != token.NEQ) {
+						return false
+					}
+					a, b := ast.Unparen(be.X), ast.Unparen(be.Y)
+					if isNilIdent(info, a) {
+						a, b = b, a
+					}
+					if !isNilIdent(info, b) {
+						return false
+					}
+					if o := objOf(info, a); o != nil && slotVals[o] {
+						return true
+					}
+					if ix, ok := a.(*ast.IndexExpr); ok && m.isChildrenField(info, ix.X) {
+						return true
+					}
+					return false
+				}) {
+					guarded = true
+				}
+				// the verdict of such a nil test held in a boolean (wasEmpty := node == nil)
+				if nodeContains(is.Cond, true, func(y ast.Node) bool {
+					id, ok := y.(*ast.Ident)
+					return ok && nilVerdict[info.Uses[id]]
+				}) {
+					guarded = true
+				}
+			}
+			// (b) filling a node being built: an assignment into the same node's child array in the same block
+			building := false
+			if blk, ok := parent[inc].(*ast.BlockStmt); ok {
+				for _, st := range blk.List {
+					if as, ok := st.(*ast.AssignStmt); ok {
+						for _, l := range as.Lhs {
+							if ix, ok := ast.Unparen(l).(*ast.IndexExpr); ok {
+								if s2, ok := ast.Unparen(ix.X).(*ast.SelectorExpr); ok && s2.Sel.Name == f.children && exprString(s2.X) == exprString(sel.X) {
+									// the node must be a local declared in this function (var other T / other := &T{…})
+									if o, ok := objOf(info, sel.X).(*types.Var); ok && o.Pos() >= fb.Body.Pos() && o.Pos() <= fb.Body.End() {
+										if !nodeContains(fb.Body, true, func(y ast.Node) bool {
+											as2, ok := y.(*ast.AssignStmt)
+											if !ok {
+												return false
+											}
+											for i2, l2 := range as2.Lhs {
+												if objOf(info, l2) == o && i2 < len(as2.Rhs) {
+													// other := n / other = n.clone(): not a node under construction
+													if _, isLit := ast.Unparen(as2.Rhs[i2]).(*ast.CompositeLit); !isLit {
+														if u, isAddr := ast.Unparen(as2.Rhs[i2]).(*ast.UnaryExpr); !isAddr || u.Op != token.AND {
+															return true
+														}
+													}
+												}
+											}
+											return false
+										}) {
+											building = true
+										}
+									}
+								}
+							}
+						}
+					}
+				}
+			}
+			switch {
+			case guarded:
+				c.Add(rule, key, inc.Pos(), core.Discharged, "guarded by a nil test of the slot value")
+			case building:
+				c.Add(rule, key, inc.Pos(), core.Discharged, "counts a slot filled in a node under construction")
+			default:
+				c.Add(rule, key, inc.Pos(), core.Violated, exprString(inc.X)+inc.Tok.String()+" is not tied to a slot changing between nil and non-nil (no nil test of the slot value guards it): the occupied-slot count drifts from the slots, so the node is not converted back / removed when its slots empty and iteration meets an empty branch")
+			}
+			return true
+		})
+	}
+	c.Floor(rule, "slot-counter updates", n, 3)
+}
